@@ -872,6 +872,15 @@ deriving DecidableEq, Repr
 
 def maxWireChaseHops : Nat := 10
 
+/-- `wireRecomposable`: the record types the composer re-encodes — CNAME and SOA are
+rewritten name by name, the others are copied verbatim, which is sound only because
+their RDATA is name-free or never compressed by the packer. -/
+def recomposableTypes : List Nat := [1, 5, 6, 16, 28, 43, 46, 47, 50]
+
+/-- `Server.serveWire` / `ServeRawInline` / `ServeRawReplay` / `serveMsgBy`: a packet whose
+query budget (read time + query timeout) has run out is dropped before the chain runs. -/
+def budgetExhausted (ageMs timeoutMs : Nat) : Bool := decide (timeoutMs ≤ ageMs)
+
 /-- `Cache.collectWireChase`: the ids of the hops used, in chain order; `none` =
 some hop was not cache-contained in composable form. `qtOK` = the terminal
 record's type is one the composer re-encodes; `el` = age in milliseconds. -/
